@@ -299,3 +299,41 @@ def model_coeffs(taus, name="coeffs"):
     body = "".join("Eval vm_compute in (run_coeffs_float %s).\n" % CS.cqlist(t) for t in taus)
     res = coqrun.run_shards(name, [body])
     return res[0]
+
+
+# ---------------------------------------------------------------- paired (metamorphic) oracles
+def match_rows_factor(rows_a, rows_b, up_to_factor=False):
+    """match rows of NLP a into rows of NLP b (both as (sense, [h...])); returns unmatched of a, of b.
+    With up_to_factor, a row matches when b = a / s for one constant s > 0 at all points."""
+    used = [False] * len(rows_b)
+    ua = []
+    for sa, ha in rows_a:
+        mag = max([abs(h) for h in ha] + [0.0])
+        found = False
+        for j, (sb, hb) in enumerate(rows_b):
+            if used[j] or sa != sb:
+                continue
+            ok = vec_close(hb, ha, 1.0, mag) or (sa == 0 and vec_close(hb, ha, -1.0, mag))
+            if not ok and up_to_factor:
+                # find s from the largest entry
+                i = max(range(len(ha)), key=lambda t: abs(ha[t]))
+                if abs(ha[i]) > 1e-12 and abs(hb[i]) > 1e-12:
+                    s = ha[i] / hb[i]
+                    if (s > 0 or sa == 0) and s != 0:
+                        ok = all(close(x / s, y, scale=mag / abs(s)) for x, y in zip(ha, hb))
+            if ok:
+                used[j] = True
+                found = True
+                break
+        if not found:
+            ua.append((sa, ha))
+    ub = [rows_b[j] for j in range(len(rows_b)) if not used[j]]
+    return ua, ub
+
+
+def pair_unjudgeable(ra, rb):
+    vals = list(ra.get("objs", [])) + list(rb.get("objs", []))
+    for r in (ra, rb):
+        for s_, hs in r.get("rows", []):
+            vals += hs
+    return any((not math.isfinite(v)) or abs(v) > BIG for v in vals)
